@@ -69,6 +69,11 @@ def run(ctx):
           'the pillar is the same via the lunar date, the sexagenary-day view, the instant view and the civil date, and advances by one per civil day across lunar month ends, year ends and the 1582 cut-over; same for the weekday',
           lambda x: '%d-%02d-%02d' % CAL.from_jdn(x[1]), fn_site(p, 'SixtyCycleDay::from_solar_day'))
 
+    # ---- the two ends of the supported range (first days of 0001, last days of 9999, last lunar year)
+    from rules import range_end as _re
+    _Ie = ctx.interp(fuel=50000000)
+    _re.c07_edge(ctx, _Ie, T(_Ie))
+
     ctx.assumptions.append('inside the scenario evaluation the civil date <-> day number layer is the calendar oracle; that layer itself is decided by the per-month Julian-day tables above')
     ctx.not_decided.append('that the first day of month k+1 is the first day of month k plus its length on the REAL lunar calendar (C03 numerics); the scenario calendars tile by construction')
     return ('pillar and weekday anchors as residue-class tables; every public route to the day pillar / weekday evaluated for ~480 consecutive days on scenario calendars incl. the 1582 cut-over')
